@@ -272,6 +272,10 @@ func (ws *priorityWriteSchedulerRFC7540) CloseStream(streamID uint32) {
 
 	q := n.q
 	ws.queuePool.put(&q)
+	// The queue's backing arrays now belong to the pool. Drop the node's own
+	// references so that the closed node, which may stay in the tree, neither
+	// looks non-empty to Pop nor aliases the queue of a later stream.
+	n.q = writeQueue{}
 	if ws.maxClosedNodesInTree > 0 {
 		ws.addClosedOrIdleNode(&ws.closedNodes, ws.maxClosedNodesInTree, n)
 	} else {
